@@ -614,5 +614,12 @@ pub fn assemble(record: &RunRecord, crash_lines: Vec<CrashLine>) -> Vec<Value> {
             }
         }
     }
+    if let Some(expect) = &record.script.expect {
+        if !record.aborted {
+            let mut line = expect.clone();
+            line["ev"] = json!("expect");
+            lines.push(line);
+        }
+    }
     lines
 }
